@@ -63,7 +63,7 @@ func genC11(t *rapid.T) *c11Case {
 	// handled another such stream of the same or a larger size
 	focus := rapid.SampledFrom([]string{"", "", "", "", "", "", "", "", "vp8", "vp8l"}).Draw(t, "focus")
 	for i := 0; i < n; i++ {
-		op := c11Op{Kind: rapid.SampledFrom([]string{"enc", "enc", "enc", "enc", "dec", "dec", "cfg", "animenc", "animdec", "mux"}).Draw(t, "op")}
+		op := c11Op{Kind: rapid.SampledFrom([]string{"enc", "enc", "enc", "enc", "dec", "dec", "cfg", "animenc", "animdec", "mux", "frameenc"}).Draw(t, "op")}
 		if focus != "" && rapid.IntRange(0, 4).Draw(t, "focusOp") != 0 {
 			op.Kind = "dec"
 			d := sz[rapid.IntRange(0, len(sz)-1).Draw(t, "fszi")]
@@ -85,7 +85,7 @@ func genC11(t *rapid.T) *c11Case {
 			continue
 		}
 		switch op.Kind {
-		case "enc":
+		case "enc", "frameenc":
 			d := sz[rapid.IntRange(0, len(sz)-1).Draw(t, "szi")]
 			w, h := d[0], d[1]
 			if rapid.IntRange(0, 3).Draw(t, "jitter") == 0 { // same macroblock count, other pixel size
@@ -102,6 +102,13 @@ func genC11(t *rapid.T) *c11Case {
 				op.Opts = gen.DrawLosslessOpts(t)
 			} else {
 				op.Opts = gen.DrawLossyOpts(t, rapid.IntRange(0, 4).Draw(t, "tgt") == 0)
+			}
+			if op.Kind == "frameenc" {
+				// the exported frame-codec hooks of the animation package, called directly: their results are
+				// plain byte slices that the caller (the muxer, or anyone) keeps while later frames are encoded
+				op.Lossless = rapid.IntRange(0, 2).Draw(t, "feLossless") > 0
+				op.Mixed = rapid.Bool().Draw(t, "feSimple") // reused field: call SimpleEncodeFunc instead of FrameEncoderFunc
+				op.Opts = nil
 			}
 		case "dec", "cfg":
 			s := pool[rapid.IntRange(0, len(pool)-1).Draw(t, "seedIdx")]
@@ -210,6 +217,24 @@ func runC11Op(op *c11Op) *c11Result {
 		} else {
 			r.keep(out)
 			r.Digest = fmt.Sprintf("bytes %d %x", len(out), sha256.Sum256(out))
+		}
+	case "frameenc":
+		img := op.Img.Build()
+		if b := op.Img.Backing(); b != nil {
+			r.keep(b)
+		}
+		var out []byte
+		var err error
+		if op.Mixed {
+			out, err = animation.SimpleEncodeFunc(img, op.Lossless, 70)
+		} else {
+			out, err = animation.FrameEncoderFunc(img, op.Lossless, 70)
+		}
+		if err != nil {
+			r.Digest = "err:" + err.Error()
+		} else {
+			r.keep(out)
+			r.Digest = fmt.Sprintf("frame bytes %d %x", len(out), sha256.Sum256(out))
 		}
 	case "dec":
 		img, err := webp.Decode(bytes.NewReader(op.File))
@@ -407,6 +432,8 @@ func opDesc(op *c11Op) string {
 	switch op.Kind {
 	case "enc":
 		return fmt.Sprintf("%dx%d %s/%s lossless=%v m%d q%v", op.Img.W, op.Img.H, op.Img.Content, op.Img.Alpha, op.Opts.Lossless, op.Opts.Method, op.Opts.Quality())
+	case "frameenc":
+		return fmt.Sprintf("%dx%d %s/%s lossless=%v simple=%v", op.Img.W, op.Img.H, op.Img.Content, op.Img.Alpha, op.Lossless, op.Mixed)
 	case "dec", "cfg", "animdec":
 		return op.Name
 	case "mux":
